@@ -700,6 +700,19 @@ impl Session {
     fn handle(&mut self, msg: Msg) -> Option<(Reply, u64)> {
         let snap = self.snap();
         let raw = msg.encode();
+        // PostgreSQL (CopyGetData): during COPY FROM STDIN only CopyData/CopyDone/CopyFail are
+        // accepted, Flush and Sync are ignored; any other message type loses protocol
+        // synchronisation and the backend terminates the connection with a FATAL error.
+        if self.copy == 1 && !matches!(msg.code, b'd' | b'c' | b'f') {
+            let tags = if msg.code == b'Q' { scan_tags(&String::from_utf8_lossy(&msg.body)) } else { vec![] };
+            let seq = self.ev(EvKind::Rx { code: msg.code, raw, tags, sql: None, own: false, snap });
+            if matches!(msg.code, b'H' | b'S') {
+                return None;
+            }
+            self.ev(EvKind::ProtoErr { code: "08P01".into(), tag: self.copy_tag });
+            let out = proto::error_response("FATAL", "08P01", &format!("unexpected message type 0x{:02X} during COPY from stdin", msg.code));
+            return Some((Reply { bytes: out, dir: Directive::default(), tags: vec![], close_after: true }, seq));
+        }
         match msg.code {
             b'Q' => {
                 let sql = proto::read_cstr(&msg.body, 0).map(|x| x.0).unwrap_or_default();
@@ -711,10 +724,6 @@ impl Session {
                 };
                 let own = tags.is_empty() && is_pgcat_own_query(&sql);
                 let seq = self.ev(EvKind::Rx { code: b'Q', raw, tags: tags.clone(), sql: Some(sql.clone()), own, snap });
-                if self.copy == 1 {
-                    // a Query while COPY IN is open aborts the copy
-                    self.copy = 0;
-                }
                 let mut out = vec![];
                 let mut dir = Directive::default();
                 let mut close_after = false;
